@@ -407,7 +407,10 @@ impl VisitMut for Rw {
             Expr::Try(t) if self.o.qmark => {
                 self.bump("R19");
                 let inner = &t.expr;
-                *e = parse_quote!(match #inner { Ok(__v) => __v, Err(__e) => return Err(QFrom::qfrom(__e)) });
+                // `qexit K` anchor: a proof slot on the error path of the K-th `?` (source order, post-order of nesting)
+                let k = { let e2 = self.closure_counts.entry("?qexit".to_string()).or_insert(0); let k = *e2; *e2 += 1; k };
+                let m = format_ident!("__verif_qexit_{}", k);
+                *e = parse_quote!(match #inner { Ok(__v) => __v, Err(__e) => { #m!(); return Err(QFrom::qfrom(__e)) } });
             }
             Expr::Call(c) => {
                 // R14: call of a parenthesised field `(self.f)(a)` -> `self.f.call(a)`
@@ -578,7 +581,7 @@ impl VisitMut for Rw {
                 if self.o.index_shim.iter().any(|r| *r == recv) {
                     self.bump("R20");
                     let r = &ix.expr; let i = &ix.index;
-                    *e = parse_quote!(#r.index_shim(#i));
+                    *e = parse_quote!((*#r.index_shim(#i)));
                 }
             }
             // R14: (self.f)(a) -> self.f.call(a)
